@@ -141,9 +141,14 @@ def table_histories(chk, gwbin, built):
                         r = R.req("DELETE", "/" + n, query={["tagging", "policy"][kind]: ""})
                         rec("DelSetting %s %d" % (coq_str(n), kind), "delete %s of %s" % (["tagging", "policy"][kind], n), ("ok",) if r.status in (200, 204) else ("err", r.code))
                     elif x < 0.80:
-                        nobj[0] += 1; key = "obj%d" % nobj[0]
+                        # some keys name the gateway's bookkeeping directory: refusing them is no step of the bucket table, but an
+                        # acknowledged one is an object of the bucket like any other (DeleteBucket has to see it)
+                        reserved = rnd.random() < 0.15
+                        nobj[0] += 1; key = (rnd.choice([".sgwtmp/obj%d", ".sgwtmp/multipart/obj%d"]) if reserved else "obj%d") % nobj[0]
                         r = R.req("PUT", "/%s/%s" % (n, key), body=b"x")
-                        rec("PutObject %s" % coq_str(n), "put-object %s/%s" % (n, key), ("ok",) if r.status == 200 else ("err", r.code))
+                        chk.count("table-put:%s:%d" % ("reserved-name" if reserved else "plain", r.status))
+                        if not (reserved and 400 <= r.status < 500 and r.code not in ("NoSuchBucket",)):
+                            rec("PutObject %s" % coq_str(n), "put-object %s/%s" % (n, key), ("ok",) if r.status == 200 else ("err", r.code))
                         if r.status == 200: live_objs[n].append(key)
                     elif x < 0.88:
                         if live_objs[n]:
